@@ -458,6 +458,21 @@ fn run_shard(ctx: &ShardCtx) {
         }
         Err(e) => Err(Failure::new("raw-session", Value::Null, "every invariant behind the unchecked operations holds after every byte", e)),
     });
+    // buffers that implement Buffer::grow and grant a request only in part
+    {
+        let n = std::cell::RefCell::new(0u64);
+        ctx.run_prop("growable-buffers", ctx.tier.pick(150_000, 2_000_000), case_strategy(), |d| input_json(d), |data| match vmodel::growrun::run(data) {
+            Ok(nt) => {
+                if nt && !*ctx.stopped.borrow() {
+                    *n.borrow_mut() += 1;
+                    ctx.nontrivial(fingerprint(&("grow", data)), || input_json(data));
+                }
+                Ok(())
+            }
+            Err(e) => Err(Failure::new("growable-buffers", Value::Null, "no panic, and the editor's text is well-formed and fits its storage after every call", e)),
+        });
+        ctx.class_n("growable buffers: sessions reaching a full buffer or a dispatch", *n.borrow());
+    }
     // the same kind of session on the library as users build it (no verif-hooks), against the hooked build
     hookfree::stage_raw(ctx, ctx.tier.pick(60_000, 1_000_000), case_strategy());
     // replay of the seed corpus and of what the fuzzing campaign kept, in the plain harness build
@@ -498,6 +513,10 @@ fn replay(sub: &str, case: &Value) -> Verdict {
     }
     if sub == hookfree::SUB {
         return hookfree::replay(case);
+    }
+    if sub == "growable-buffers" {
+        let data = unhex(case["hex"].as_str().unwrap_or(""));
+        return vmodel::growrun::run(&data).map(|_| ()).map_err(|e| Failure::new(sub, case.clone(), "no panic, and the editor's text is well-formed and fits its storage after every call", e));
     }
     if sub == "stack-depth" {
         let (sc, n) = (case["scenario"].as_str().unwrap_or("write-linefeeds"), case["n"].as_u64().unwrap_or(1) as usize);
